@@ -160,7 +160,7 @@ Layout(D, ps3) ==
       H == << HierOf(D, T, 1), HierOf(D, T, 2) >>
   IN
   [total |-> <<T.total, 0>>,
-   descs |-> << DescOf(T, H[1], 1), DescOf(T, H[2], 2), [lba |-> FirstDescriptorLBA + 2, type |-> 255, id |-> "CD001", version |-> 0, restZero |-> TRUE] >>,
+   descs |-> << DescOf(T, H[1], 1), DescOf(T, H[2], 2), [lba |-> FirstDescriptorLBA + 2, type |-> 255, id |-> "CD001", version |-> 1, restZero |-> TRUE] >>,
    hier |-> H,
    ps3 |-> IF ps3 THEN [regionCount |-> P(1), regionStart |-> PZero, regionEnd |-> P(T.total - 1), consoleId |-> "PlayStation3",
                         productId |-> "BLES-01234", restZero |-> TRUE]
